@@ -428,6 +428,12 @@ def run(mon, spec):
         jde = jd_of_year(rng.uniform(1800.0, 2200.0))
         mon.begin("coarse", [jde])
         case_coarse(mon, jde)
+    if spec["idx"] == 0:
+        # years whose number is "falsy" or changes sign, in every form
+        for y in (0, -1, 1, -2000, 1582, 1583):
+            for m, d in ((1, 1), (3, 1), (12, 31)):
+                mon.begin("forms", [y, m, d])
+                case_forms(mon, y, m, d)
     for _ in range(spec["n_forms"]):
         y = rng.choice((rng.randrange(1583, 3000), rng.randrange(-2000, 4000),
                         rng.randrange(1, 1582)))
